@@ -297,3 +297,46 @@ class answer_has_the_shape_of_the_coordinate_arrays_given:
     pre = lambda region: circle_ok(region)
     call = lambda region, xs, ys: _contains_of_new_coordinates(region, xs, ys)
     post = {'array_of_the_same_shape': lambda xs, result: is_array(result) and shape_of(result) == shape_of(xs)}
+
+
+# ---------------------------------------------------------------------------- answers follow in-place updates of a parameter
+def _ask_update_in_place_ask(self, p, d, how):
+    """membership, bounding box and area are asked, the angle Quantity is then changed IN PLACE (augmented assignment, or through a
+    reference the caller kept), and everything is asked again; `fresh` is a region built anew from the current parameter values"""
+    before = (self.contains(p), self.bounding_box)
+    if how == 'augmented':
+        self.angle += d
+    else:
+        held = self.angle
+        held += d
+    fresh = self.__class__(self.center, self.width, self.height, self.angle, self.meta, self.visual)
+    return (self.contains(p), fresh.contains(p), self.bounding_box, fresh.bounding_box, before)
+
+
+@contract(ELLIPSE + '.contains', props=['C01', 'C13', 'C04'])
+class membership_follows_in_place_updates:
+    """the answer is a function of the region's CURRENT parameters: nothing derived from the angle may be remembered across an in-place
+    change of it (the Quantity object stays the same, its value does not)"""
+    cases = {k + '-' + h: {'kind': k, 'how': h} for k in ('ellipse', 'rectangle') for h in ('augmented', 'held_reference')}
+    # the same for one concrete shape and turn (a 4 x 2 shape at the origin turned from 0 to 90 deg), any position: a stale answer is
+    # then a matter of two fixed quadratic inequalities, which the solver refutes at once
+    cases.update({k + '-' + h + '-quarter-turn': {'kind': k, 'how': h, 'concrete': True}
+                  for k in ('ellipse', 'rectangle') for h in ('augmented', 'held_reference')})
+
+    def setup(B, kind='ellipse', how='augmented', concrete=False):
+        r = ellipse(B, 'r', 'bool', 'deg') if kind == 'ellipse' else rectangle(B, 'r', 'bool', 'deg')
+        d = B.quantity('d', 'deg')
+        if concrete:
+            import astropy.units as u
+            from contracts.common import PIXCOORD
+            r.__dict__['center'] = B.new(PIXCOORD, label='r.center', x=0.0, y=0.0)
+            r.__dict__['width'] = 4.0
+            r.__dict__['height'] = 2.0
+            r.__dict__['angle'] = B.call(u.Quantity, 0.0, u.deg)
+            d = B.call(u.Quantity, 90.0, u.deg)
+        return dict(self=r, p=query(B, 'scalar'), d=d, how=how)
+    pre = lambda self: ellipse_ok(self)
+    call = lambda self, p, d, how: _ask_update_in_place_ask(self, p, d, how)
+    modifies = ('r',)
+    post = {'membership_of_the_current_parameters': lambda result: bool(result[0]) == bool(result[1]),
+            'box_of_the_current_parameters': lambda result: result[2] == result[3]}
